@@ -151,6 +151,12 @@ func TestWorker(t *testing.T) {
 		t.Skip("VERIF_PROP not set")
 	}
 	watchdog()
+	// config.Load() reads these through viper from the real process environment
+	for k, v := range map[string]string{"BLACKDAGGER_DAGS_DIR": dagsDir, "BLACKDAGGER_DATA_DIR": dataDir, "BLACKDAGGER_LOG_DIR": logsDir,
+		"BLACKDAGGER_SUSPEND_FLAGS_DIR": flagDir, "BLACKDAGGER_ADMIN_LOG_DIR": logsDir + "/admin", "BLACKDAGGER_BASE_CONFIG": "/sim/base.yaml",
+		"BLACKDAGGER_EXECUTABLE": cliPath, "BLACKDAGGER_WORK_DIR": workDir, "BLACKDAGGER_LATEST_STATUS": "true"} {
+		os.Setenv(k, v)
+	}
 	pe, ok := PropEngines[prop]
 	if !ok {
 		fmt.Fprintln(os.Stderr, "worker: unknown property", prop)
